@@ -22,6 +22,7 @@ RULE = ('Generated property texts (inline, -p) and specification files (valid; s
         'failing run must print a diagnostic and no JSON document; a successful -o json run must print one strictly '
         'valid JSON document equal to the mirror serialisation of the AST parsed in-process. Non-trivial = JSON '
         'compared or error path judged with >= 2 events; distinct = shape x flags x outcome.')
+RULE_ADDED = ' Since the seeding rounds: finite extremes of the doubles, integers that no double holds exactly and one beyond the doubles\' range (compared exactly).'
 ASSUMPTIONS = [
     'argument texts starting with "-" are not judged (argparse takes them for options: caller error)',
     'the in-process parse outcome of the same text is the reference for "parses"',
@@ -67,7 +68,10 @@ def nonfinite_prop(rng, p):
     c = gen.pick(rng, (('const', 'INF'), ('const', 'NAN'), A.neg(('const', 'INF')),
                        ('set', (('const', 'NAN'), A.num('1'))), ('range', A.neg(('const', 'INF')), ('const', 'INF'), False, True),
                        A.num('1.7976931348623157e308'), A.neg(A.num('1.7976931348623157e308')), A.num('4.9e-324'),
-                       A.num('1e308'), A.num('1e309')))  # finite extremes print as numbers, 1e309 is infinite
+                       A.num('1e308'), A.num('1e309'),  # finite extremes print as numbers, 1e309 is infinite
+                       # integers no double holds exactly, and one beyond the range of doubles
+                       A.num('9007199254740993'), A.num('18446744073709551615'), A.neg(A.num('36028797018963971')),
+                       A.num('1' + '0' * 320 + '7')))
     atom = ('bin', 'in', A.fld('x'), c) if c[0] in ('set', 'range') else ('bin', '<', A.fld('x'), c)
     _, meta, scope, pat = p
     ev = pat[2]
